@@ -516,9 +516,10 @@ def _trso_run(case):
             return r
         T.trso_line6 = rec6
     try:
-        est = T.identify_target_outcomes(graph, target_outcomes={V(y) for y in case["Y"]},
-                                         target_interventions={V(x) for x in case["X"]},
-                                         surrogate_outcomes=so, surrogate_interventions=si)
+        with c05.recursion_guard():
+            est = T.identify_target_outcomes(graph, target_outcomes={V(y) for y in case["Y"]},
+                                             target_interventions={V(x) for x in case["X"]},
+                                             surrogate_outcomes=so, surrogate_interventions=si)
         cls = "none" if est is None else "ok"
     except RecursionError:
         cls, est = "err", None
